@@ -1,13 +1,14 @@
 package prio
 
 import (
-	"strings"
 	"context"
 	"errors"
 	"fmt"
 	"sort"
+	"strings"
 	"sync"
 	"sync/atomic"
+	"syscall"
 	"testing"
 	"time"
 
@@ -415,6 +416,14 @@ func (e *exec) deliveredLocked(it Item, tag uint, hasTag bool) int {
 		}
 		if c > e.tr.MaxPerPrio[it.P] {
 			e.tr.MaxPerPrio[it.P] = c
+			per := map[uint]int{}
+			for _, x := range e.live {
+				per[e.tr.Deliveries[x].It.P]++
+			}
+			if e.tr.MaxPerPrioAt == nil {
+				e.tr.MaxPerPrioAt = map[uint]string{}
+			}
+			e.tr.MaxPerPrioAt[it.P] = fmt.Sprintf("delivery #%d at %dns during op #%d, in flight then %v", di, d.At, int(e.opIdx.Load()), per)
 		}
 	}
 	if uint(len(e.live)) > e.s.H && e.tr.OverCommit == "" {
@@ -1122,6 +1131,33 @@ func (e *exec) stop(kind string, n int) {
 	e.pollErr()
 }
 
+// hold lets d virtual ns pass in growing steps. A discipline that waits for the releases blocked
+// on a channel lets the fake clock jump; one that polls (every virtual ns) makes each step cost
+// real time - then the rest of the hold is skipped, it would only burn the case's budget.
+func (e *exec) hold(d int64) {
+	step := int64(1000)
+	for left := d; left > 0; {
+		if step > left {
+			step = left
+		}
+		rt0 := realNow()
+		time.Sleep(time.Duration(step))
+		e.wait()
+		left -= step
+		if realNow()-rt0 > int64(5*time.Millisecond) {
+			return
+		}
+		step *= 10
+	}
+}
+
+// realNow is the real wall clock in ns (the time package is faked inside a bubble).
+func realNow() int64 {
+	var tv syscall.Timeval
+	_ = syscall.Gettimeofday(&tv)
+	return tv.Sec*1e9 + tv.Usec*1e3
+}
+
 // epilogue: orderly end of a run that was not stopped.
 func (e *exec) epilogue() {
 	e.opIdx.Store(int64(len(e.s.Ops)))
@@ -1165,11 +1201,20 @@ func (e *exec) epilogue() {
 		e.gracefulStop()
 	}
 	stuck := 0
+	held := false
 	for round := 0; round < 100000; round++ {
 		got := e.drain()
 		e.snapshot(true)
 		if e.isTerminated() {
 			return
+		}
+		if !held && e.s.EpiHold > 0 && e.s.Ver == 2 && e.liveLen() > 0 {
+			held = true
+			e.hold(e.s.EpiHold)
+			e.drain()
+			if e.isTerminated() {
+				return
+			}
 		}
 		if n := e.liveLen(); n > 0 {
 			stuck = 0
